@@ -22,11 +22,13 @@ func main() {
 		lib.Fatal(err)
 	}
 	defer drv.Close()
+	sets := startSetCases(f) // mostly waiting (the 5 s send timeout): runs next to everything below
 	runMergeTable(f, res, drv)
 	runMachine(f, res, drv)
 	runDrop(f, res, drv)
 	runSend(f, res, drv)
 	runLatency(f, res)
+	sets.finish(res, drv)
 	if err := res.Write(f.Out); err != nil {
 		lib.Fatal(err)
 	}
@@ -80,6 +82,14 @@ func replay(f lib.Flags) int {
 		kind, elapsed := c.runCode()
 		fmt.Printf("replay %s -> %s after %s\n", c.line(), kind, elapsed)
 		c.monitor(m, kind, elapsed)
+	case "set":
+		var c setCase
+		if err := json.Unmarshal(raw, &c); err != nil {
+			lib.Fatal(err)
+		}
+		obs := c.runCode()
+		fmt.Printf("replay set %v -> %s after %s (returned %s, stored %s, err %q)\n", c.Subscribers, obs.Outcome, obs.Elapsed, obs.Returned, obs.Stored, obs.ErrText)
+		c.monitor(m, obs)
 	case "latency":
 		var c latencyCase
 		if err := json.Unmarshal(raw, &c); err != nil {
